@@ -51,6 +51,8 @@ Final ==
                  /\ (Want("PhaseRange") => M("C05: phase undefined or in [0.5, 1]", f.phase_ok))
                  /\ (Want("SamplesExact") => M("C21: sample nodes keep their times (mean = constraint, variance 0)", f.samples_exact))
                  /\ (Want("PhasedUnmoved") => M("C22: phased => mutation nodes unchanged", f.phased_unmoved))
+                 /\ (Want("UnphasedMoves") => M("C22: a mutation node changes only to the other node of its diploid contemporary individual", f.unphased_moves_ok))
+                 /\ (Want("RephaseInvariant") => M("C22: output independent of the input phase of singletons", f.rephase_equal))
        IN  nacc' = nacc + (IF ok THEN 1 ELSE 0)
     /\ l' = l + 1 /\ k' = 0 /\ pc' = "begin" /\ good' = TRUE
 
